@@ -591,16 +591,16 @@ func (c *c13Checker) learn(dir string) {
 
 // check runs the offline oracle on a scratch copy of the image. labelFn turns the completed epoch found in the
 // image's dkg.db into the crash-point label used in the signatures.
-func (c *c13Checker) check(img *c13Image, dir string, labelFn func(epoch uint32) string) (out []c13Finding, info map[string]any, label string) {
+func (c *c13Checker) check(img *c13Image, dir string, labelFn func(epoch uint32, curState string) string) (out []c13Finding, info map[string]any, label string) {
 	info = map[string]any{}
 	add := func(sig, detail string) { out = append(out, c13Finding{sig, detail}) }
 
 	// (2) dkg.db
 	v := c.readDKG(dir)
 	if v.finished != nil {
-		label = labelFn(v.finished.Epoch)
+		label = labelFn(v.finished.Epoch, c13CurState(v.current))
 	} else {
-		label = labelFn(0)
+		label = labelFn(0, c13CurState(v.current))
 	}
 	info["label"] = label
 	switch {
@@ -823,4 +823,11 @@ func (c *c13Checker) checkChain(dir string) (head uint64, n int, cerr *c13ChainE
 		head = prev.Round
 	}
 	return head, n, cerr
+}
+
+func c13CurState(cur *dkg.DBState) string {
+	if cur == nil {
+		return "none"
+	}
+	return cur.State.String()
 }
